@@ -124,7 +124,7 @@ func TestC25(t *testing.T) {
 	var jobs []job
 	for _, c := range combos {
 		for rep := 0; rep < reps; rep++ {
-			jobs = append(jobs, job{c, "transfer", rep}, job{c, "flip", rep}, job{c, "truncate", rep}, job{c, "close", rep}, job{c, "empty-records", rep})
+			jobs = append(jobs, job{c, "transfer", rep}, job{c, "flip", rep}, job{c, "truncate", rep}, job{c, "close", rep}, job{c, "close-eof-with-data", rep}, job{c, "empty-records", rep})
 			if c.v == tls.VersionTLS13 {
 				jobs = append(jobs, job{c, "keyupdate", rep}, job{c, "coalesced", rep}, job{c, "upload-rekey", rep})
 			}
@@ -234,9 +234,15 @@ func TestC25(t *testing.T) {
 			x2 := pump(h.Server, h.Client, mkChunks(4), bufs, nil)
 			check("s2c", x2, false, 0)
 			r.Count("bytes_transferred", int64(len(x1.got)+len(x2.got)))
-		case "close":
+		case "close", "close-eof-with-data":
 			// the sender writes its last data and closes at once, so that the final data record and
 			// close_notify reach the receiver together; the receiver must still get every byte, then EOF
+			if j.scenario == "close-eof-with-data" {
+				// a transport whose last Read hands over the final bytes together with io.EOF
+				h.CEnd.EOFWithData.Store(true)
+				h.SEnd.EOFWithData.Store(true)
+				r.Count("closes_on_a_transport_that_reports_eof_with_the_last_bytes", 1)
+			}
 			dir := []string{"s2c", "c2s"}[j.rep%2]
 			var w io.WriteCloser = h.Server
 			var rd io.Reader = h.Client
